@@ -156,7 +156,16 @@ fn main() {
         "C12" => go(props::c12::C12, tier, seed, &replay),
         "C13" => go(props::c13::C13, tier, seed, &replay),
         "C14" => go(props::c14::C14, tier, seed, &replay),
-        "C15" => go(props::c15::C15, tier, seed, &replay),
+        "C15" => {
+            let mut r = go(props::c15::C15, tier, seed, &replay);
+            if replay.is_none() && r.exit == 0 {
+                // leg 2: the same question for real generated parsers
+                let r2 = props::c15::generated_leg(tier, seed);
+                r.lines.extend(r2.lines);
+                r.exit = r2.exit;
+            }
+            r
+        }
         "C16" => go(props::c16::C16, tier, seed, &replay),
         "C17" => go(props::c17::C17, tier, seed, &replay),
         "C18" => go(props::c18::C18, tier, seed, &replay),
